@@ -20,7 +20,7 @@ RELABEL = {
     'check2_plain': {'*': ['C14', 'C12']}, 'extern_ctx': {'*': ['C14']}, 'trace_rules': {'*': ['C19']},
     'position_skip': {'*': ['C09']}, 'position_string': {'*': ['C09']}, 'position_root': {'*': ['C09']}, 'position_root_bom': {'*': ['C09']},
     'string_rule': {'C09': ['C09'], '*': ['C02']}, 'char_rule': {'C14': ['C14'], 'C10': ['C10'], '*': ['C01']},
-    'position_enum_override': {'*': ['C09']}, 'check_string': {'*': ['C14']}, 'check_override': {'*': ['C14']},
+    'position_enum_override': {'*': ['C09']}, 'check_string': {'C10': ['C10', 'C14'], '*': ['C14']}, 'check_override': {'*': ['C14']},
     'leftrec_indirect': {'C10': ['C10'], '*': ['C07']}, 'extern_string': {'*': ['C14']},
     'include_nested': {'C01': ['C13', 'C08'], '*': ['C13']}, 'include_choice_closure': {'*': ['C13']},
     'memo_position': {'C06': ['C06'], 'C09': ['C09', 'C05'], '*': ['C05']}, 'derives_empty': {'*': ['C01']},
@@ -199,7 +199,7 @@ def t_part(ctx, prop):
     for n in mine:
         s = SCHEMAS[n]
         st = T['status'].get(n)
-        if n in T['compile_violations'] and (prop == 'C03' or prop == STATIC_PROP.get(n)):
+        if n in T['compile_violations'] and (prop == 'C03' or prop == STATIC_PROP.get(n) or prop in s.props):
             rp = ctx.replay_path('T-compile-%s' % n)
             out['violations'].append({'id': 'T:%s:compile' % n, 'layer': 'T', 'schema': n, 'assertion': 'generated code compiles with the documented types',
                                       'replay': rp, 'no_failing_input': False, 'grammar': open(os.path.join(T['gen'], n + '.ebnf')).read(),
@@ -255,7 +255,7 @@ def t_part(ctx, prop):
                                       'what': 'schema %s [%s]: %s\n  operands/input: %s' % (n, s.note, f['what'], f['tables'])})
     # a relevant schema whose generated code does not compile cannot be run: undecided for this property (it is a C03 violation)
     for n in mine:
-        if n in T['excluded'] and prop not in ('C03', STATIC_PROP.get(n)):
+        if n in T['excluded'] and prop not in ('C03', STATIC_PROP.get(n)) and prop not in SCHEMAS[n].props:
             out['inconclusive'].append('schema %s cannot be run: its generated code does not compile (reported under C03): %s' % (n, T['compile_violations'].get(n, [''])[0][:200]))
     if not out['schemas'] and not out['violations'] and not out['static'] and prop != 'C03':
         out['inconclusive'].append('no schema was run for %s' % prop)
